@@ -6,6 +6,7 @@ package dawn
 
 import (
 	"math/rand/v2"
+	"strings"
 
 	"github.com/pgavlin/dawn/runner"
 	"verif.local/sim/simcheck"
@@ -55,7 +56,23 @@ func runnerE2Gen(r *rand.Rand, tier string) any {
 		}
 	case 2:
 		a := r.IntN(len(p.Targets))
-		p.Targets[a].Deps = append(p.Targets[a].Deps, "//:nope")
+		// a label that names no target: an unknown name, a package label without a name, or
+		// the default target of a directory that is not a package
+		dep := []string{"//:nope", "//:nope", "//a", "//c", "//a/zz:default", "//zz:default", "//a/b/zz:default"}[r.IntN(7)]
+		p.Targets[a].Deps = append(p.Targets[a].Deps, dep)
+		if r.IntN(2) == 0 {
+			// ... next to the default target of the enclosing package under its own label
+			for i := range p.Targets {
+				if d := &p.Targets[i]; d.Default && i != a && !p.reaches(d, &p.Targets[a]) {
+					def, sub := d.Pkg+":default", d.Pkg+"/zz:default"
+					if d.Pkg == "//" {
+						def, sub = "//:default", "//zz:default"
+					}
+					p.Targets[a].Deps = append(p.Targets[a].Deps[:len(p.Targets[a].Deps)-1], def, sub)
+					break
+				}
+			}
+		}
 		sc.Mode = "unknown"
 	}
 	for k := 0; k < 1+r.IntN(3); k++ {
@@ -214,6 +231,19 @@ func runnerE2Exec(prop string) func(any, *simcheck.Ctx) *simcheck.Violation {
 				for l, n := range count {
 					if n > 1 {
 						return simcheck.V("evaluated-twice", "the body of %s ran %d times in one build of %s", l, n, op.Label)
+					}
+				}
+				// ... and is judged once: one verdict (up to date, succeeded or failed) per label
+				verdicts := map[string][]string{}
+				for _, e := range h.w.events {
+					switch e.Kind {
+					case "TargetUpToDate", "TargetSucceeded", "TargetFailed":
+						verdicts[e.Label] = append(verdicts[e.Label], strings.TrimPrefix(e.Kind, "Target"))
+					}
+				}
+				for l, vs := range verdicts {
+					if len(vs) > 1 && !op.Twice && !op.DryNil {
+						return simcheck.V("evaluated-twice", "%s was evaluated %d times in one build of %s (verdicts %v)", l, len(vs), op.Label, vs)
 					}
 				}
 				for l, s := range starts {
